@@ -36,6 +36,7 @@ def run_variant(pid, patch):
         if p.returncode != 0:
             return dict(patch=patch, status="patch-failed", out=p.stdout + p.stderr)
         env = dict(os.environ, TLX_REPO=d, VERIF_OUT=os.path.join(d, "_out"), VERIF_TIER="quick")
+        env.pop("VERIF_RECORD_KNOWN", None)      # the reference names come from the reference tree only, never from a variant
         env.pop("VERIF_VERBOSE", None)
         q = subprocess.run([os.path.join(VERIF, "check"), pid], capture_output=True, text=True, env=env)
         viol = []
